@@ -7,6 +7,7 @@ import (
 	"fmt"
 	"os"
 	"strings"
+	"sync"
 	"testing"
 
 	"github.com/akrennmair/updog"
@@ -32,10 +33,13 @@ const (
 	PIndex
 	PBoltOther
 	PReadOnlyIndex
+	PSymlinkToFile   // the path is a symlink to an existing file with random bytes
+	PDanglingSymlink // the path exists as a directory entry, its target does not
+	PDirectory
 	nPre
 )
 
-var preName = []string{"0-bytes", "random-bytes", "valid-index", "bbolt-non-index", "read-only valid-index"}
+var preName = []string{"0-bytes", "random-bytes", "valid-index", "bbolt-non-index", "read-only valid-index", "symlink-to-file", "dangling-symlink", "directory"}
 
 type ClobberCase struct {
 	Pre     int
@@ -48,12 +52,27 @@ func (c *ClobberCase) Summary() string {
 	return fmt.Sprintf("existing=%s(%d random bytes) writer holds %s", preName[c.Pre], len(c.Random), c.Data.Summary())
 }
 
+// digest describes what is at path without following a final symlink: link
+// target text (and the target's content if it exists), directory listing, or
+// content hash + size + mode of a regular file.
 func digest(path string) (string, error) {
-	b, err := os.ReadFile(path)
+	st, err := os.Lstat(path)
 	if err != nil {
 		return "", err
 	}
-	st, err := os.Stat(path)
+	if st.Mode()&os.ModeSymlink != 0 {
+		tgt, _ := os.Readlink(path)
+		b, rerr := os.ReadFile(path)
+		if rerr != nil {
+			return fmt.Sprintf("symlink->%s (dangling)", tgt), nil
+		}
+		return fmt.Sprintf("symlink->%s %x/%d", tgt, sha256.Sum256(b), len(b)), nil
+	}
+	if st.IsDir() {
+		ents, _ := os.ReadDir(path)
+		return fmt.Sprintf("dir with %d entries", len(ents)), nil
+	}
+	b, err := os.ReadFile(path)
 	if err != nil {
 		return "", err
 	}
@@ -75,6 +94,20 @@ func clobberOracle(c *ClobberCase) error {
 		}
 		if c.Pre == PReadOnlyIndex {
 			os.Chmod(path, 0o444)
+		}
+	case PSymlinkToFile:
+		target := path + ".target"
+		os.WriteFile(target, c.Random, 0o644)
+		if err := os.Symlink(target, path); err != nil {
+			return fmt.Errorf("INFRA: %v", err)
+		}
+	case PDanglingSymlink:
+		if err := os.Symlink(path+".nowhere", path); err != nil {
+			return fmt.Errorf("INFRA: %v", err)
+		}
+	case PDirectory:
+		if err := os.Mkdir(path, 0o755); err != nil {
+			return fmt.Errorf("INFRA: %v", err)
 		}
 	case PBoltOther:
 		db, err := bbolt.Open(path, 0o644, nil)
@@ -117,6 +150,73 @@ func clobberOracle(c *ClobberCase) error {
 	}
 	if again, _ := digest(path); again != before {
 		return fmt.Errorf("second Flush changed the existing file")
+	}
+	return nil
+}
+
+// ---------------------------------------------------------------- concurrent creation
+
+// RaceCase: several writers with different contents Flush to one path at the
+// same time.  Exactly one may create the file; every other Flush finds the
+// path existing and must fail without touching it.
+type RaceCase struct {
+	Writers int
+	Rows    int
+}
+
+func (c *RaceCase) Summary() string {
+	return fmt.Sprintf("%d writers (writer g holds %d+g rows tagged g) Flush to the same fresh path concurrently", c.Writers, c.Rows)
+}
+
+func raceOracle(c *RaceCase) error {
+	dir := fix.CaseDir()
+	defer os.RemoveAll(dir)
+	for attempt := 0; attempt < 20; attempt++ {
+		path := fix.TempPath(dir, "contended") + ".updog"
+		ws := make([]*updog.IndexWriter, c.Writers)
+		datas := make([][]model.Row, c.Writers)
+		for g := range ws {
+			ws[g] = updog.NewIndexWriter(path)
+			for i := 0; i < c.Rows+g; i++ {
+				r := model.Row{"w": fmt.Sprintf("writer%d", g), "i": fmt.Sprint(i % 3)}
+				datas[g] = append(datas[g], r)
+				ws[g].AddRow(r)
+			}
+		}
+		start := make(chan struct{})
+		errs := make([]error, c.Writers)
+		var wg sync.WaitGroup
+		for g := range ws {
+			wg.Add(1)
+			go func(g int) {
+				defer wg.Done()
+				<-start
+				errs[g] = fix.Safe(ws[g].Flush)
+			}(g)
+		}
+		close(start)
+		wg.Wait()
+		winners := []int{}
+		for g, e := range errs {
+			if fix.IsPanic(e) {
+				return e
+			}
+			if e == nil {
+				winners = append(winners, g)
+			}
+		}
+		if len(winners) != 1 {
+			return fmt.Errorf("attempt %d: %d of %d concurrent Flush calls to one path succeeded (writers %v); exactly one can have created the file, the others found it existing", attempt, len(winners), c.Writers, winners)
+		}
+		idx, _, err := fix.Open(path, fix.OpenCfg{CacheCap: -1})
+		if err != nil {
+			return fmt.Errorf("attempt %d: the file created by writer %d does not open: %v", attempt, winners[0], err)
+		}
+		perr := fix.ProbeAll(idx, model.NewData(datas[winners[0]]), fix.ProbeOpts{})
+		fix.Safe(idx.Close)
+		if perr != nil {
+			return fmt.Errorf("attempt %d: the file is not the index of the one successful writer %d (a failed Flush touched it): %v", attempt, winners[0], perr)
+		}
 	}
 	return nil
 }
@@ -278,6 +378,17 @@ func runRead(t interface{ Fatalf(string, ...any) }, c *ReadCase) {
 	}
 }
 
+func drawRace(t *rapid.T) *RaceCase {
+	return &RaceCase{Writers: rapid.IntRange(2, 12).Draw(t, "writers"), Rows: rapid.SampledFrom([]int{0, 1, 5, 200, 1200}).Draw(t, "rows")}
+}
+
+func runRace(t interface{ Fatalf(string, ...any) }, c *RaceCase) {
+	evid.Case(true, c.Summary(), "concurrent-flush-one-path")
+	if err := raceOracle(c); err != nil {
+		fix.Fail(t, prop, "race", c, c.Summary(), err)
+	}
+}
+
 func drawClobber(t *rapid.T) *ClobberCase {
 	c := &ClobberCase{Pre: rapid.IntRange(0, nPre-1).Draw(t, "pre")}
 	c.Random = rapid.SliceOfN(rapid.Byte(), 1, 5000).Draw(t, "random")
@@ -332,6 +443,13 @@ func drawRead(t *rapid.T) *ReadCase {
 }
 
 func replay(cf *evid.CaseFile) error {
+	if cf.Sub == "race" {
+		var c RaceCase
+		if err := evid.Decode(cf.Gob, &c); err != nil {
+			return err
+		}
+		return raceOracle(&c)
+	}
 	if cf.Sub == "clobber" {
 		var c ClobberCase
 		if err := evid.Decode(cf.Gob, &c); err != nil {
@@ -350,6 +468,7 @@ func TestQuick(t *testing.T) {
 	fix.Pinned(t, prop, replay)
 	fix.Check(t, "clobber", 300, func(rt *rapid.T) { runClobber(rt, drawClobber(rt)) })
 	fix.Check(t, "read", 300, func(rt *rapid.T) { runRead(rt, drawRead(rt)) })
+	fix.Check(t, "race", 15, func(rt *rapid.T) { runRace(rt, drawRace(rt)) })
 }
 
 func TestThorough(t *testing.T) {
@@ -358,6 +477,7 @@ func TestThorough(t *testing.T) {
 	}
 	fix.Check(t, "clobber", 3000, func(rt *rapid.T) { runClobber(rt, drawClobber(rt)) })
 	fix.Check(t, "read", 3000, func(rt *rapid.T) { runRead(rt, drawRead(rt)) })
+	fix.Check(t, "race", 100, func(rt *rapid.T) { runRace(rt, drawRace(rt)) })
 }
 
 func TestReplay(t *testing.T) {
